@@ -21,11 +21,15 @@ import (
 var portCtr int64
 
 // FreeAddr returns a loopback address with a free port. Ports come from a
-// range owned by this shard (below the ephemeral range), so that the 16
+// range owned by this shard's worker slot (below the ephemeral range; the
+// driver runs at most 16 shards at a time and hands each a slot), so that
 // parallel shards of a unit never pick the same port between probing and
 // binding; each candidate is probed by listening on it once.
 func FreeAddr() string {
 	shard, _ := strconv.Atoi(os.Getenv("VERIF_SHARD"))
+	if s, err := strconv.Atoi(os.Getenv("VERIF_SLOT")); err == nil {
+		shard = s
+	}
 	const span = 1300
 	base := 10000 + (shard%16)*span
 	for i := 0; i < span; i++ {
